@@ -23,6 +23,7 @@ import (
 	"sort"
 	"strconv"
 	"strings"
+	"sync"
 	"testing"
 	"testing/synctest"
 	"time"
@@ -168,6 +169,55 @@ type gateway struct {
 	stop   chan struct{}
 	// every ClusterInfo ever seen: deleted clusters keep their meter goroutines (stopped at close through the verif hook)
 	infos map[*clusters.ClusterInfo]bool
+	// the name table as seen after EVERY write the controller makes to it (spy around the embedded clusters.Manager)
+	midMu sync.Mutex
+	mid   []ev
+}
+
+// spyManager passes everything through and lets the harness look at the table after each write
+type spyManager struct {
+	clusters.Manager
+	after func()
+}
+
+func (m *spyManager) Add(ci *clusters.ClusterInfo)                  { m.Manager.Add(ci); m.after() }
+func (m *spyManager) AddWithKey(k string, ci *clusters.ClusterInfo) { m.Manager.AddWithKey(k, ci); m.after() }
+func (m *spyManager) Delete(name string)                            { m.Manager.Delete(name); m.after() }
+func (m *spyManager) DeleteWithStop(name string)                    { m.Manager.DeleteWithStop(name); m.after() }
+func (m *spyManager) DeleteAll()                                    { m.Manager.DeleteAll(); m.after() }
+
+// spy installs the wrapper (before Run): after every write the resolution of every bare host name is recorded
+func (g *gateway) spy(hosts []string) {
+	bare := map[string]bool{}
+	for _, h := range hosts {
+		b := strings.ToLower(h)
+		if i := strings.LastIndex(b, ":"); i >= 0 {
+			b = b[:i]
+		}
+		bare[b] = true
+	}
+	inner := g.ctrl.Manager
+	g.ctrl.Manager = &spyManager{Manager: inner, after: func() {
+		res := map[string]string{}
+		for b := range bare {
+			if ci, ok := inner.Get(b); ok {
+				res[b] = ci.Cluster
+			} else {
+				res[b] = ""
+			}
+		}
+		g.midMu.Lock()
+		g.mid = append(g.mid, ev{"k": "mid", "resolve": res})
+		g.midMu.Unlock()
+	}}
+}
+
+func (g *gateway) drainMid() []ev {
+	g.midMu.Lock()
+	defer g.midMu.Unlock()
+	out := g.mid
+	g.mid = nil
+	return out
 }
 
 func (g *gateway) remember(names []string) {
@@ -178,11 +228,16 @@ func (g *gateway) remember(names []string) {
 	}
 }
 
-func newGateway(objs ...runtime.Object) *gateway {
+func newGateway(objs ...runtime.Object) *gateway { return newGatewaySpy(nil, objs...) }
+
+func newGatewaySpy(spyHosts []string, objs ...runtime.Object) *gateway {
 	g := &gateway{client: gatewayfake.NewSimpleClientset(objs...), stop: make(chan struct{}), infos: map[*clusters.ClusterInfo]bool{}}
 	factory := gatewayinformers.NewSharedInformerFactory(g.client, 10*time.Minute) // non-zero resync: see harness notes
 	inf := factory.Proxy().V1alpha1().UpstreamClusters()
 	g.ctrl = controllers.NewUpstreamClusterController(inf, &proxyoptions.RateLimiterOptions{RateLimiter: "local"})
+	if spyHosts != nil {
+		g.spy(spyHosts)
+	}
 	go factory.Start(g.stop)
 	go g.ctrl.Run(g.stop)
 	return g
@@ -356,7 +411,7 @@ type ev map[string]interface{}
 func runScenario(t *testing.T, sc scenario) []ev {
 	var events []ev
 	synctest.Test(t, func(t *testing.T) {
-		gw := newGateway()
+		gw := newGatewaySpy(sc.Hosts)
 		time.Sleep(time.Second)
 		synctest.Wait()
 		latest := map[string]*absObj{}
@@ -408,6 +463,7 @@ func runScenario(t *testing.T, sc scenario) []ev {
 			case "obs":
 				obsIdx++
 				synctest.Wait()
+				events = append(events, gw.drainMid()...)
 				res, tl, eff := gw.observe(sc.Hosts, names)
 				// a fresh gateway that is given only the latest objects
 				objs := []runtime.Object{}
